@@ -25,7 +25,7 @@ BOUNDS = {"quick": {"vertices": 3, "dict_entries": 2, "values_per_entry": 2, "ma
           "thorough": {"vertices": 3, "dict_entries": 3, "values_per_entry": 2, "matrix": "<=3x3"}}
 TIME_BUDGET = {"quick": 400, "thorough": 1200}
 STUBS = ["uuid.uuid4 -> fresh distinct integer"]
-ASSUMPTIONS = ["cells are integers (truthiness = non-zero); side-array entries are vertices",
+ASSUMPTIONS = ["cells are integers (truthiness = non-zero) or, in one 2x2 configuration, any of 0, 1, None, '', 'x'; side-array entries are vertices",
                "pool bound: 3 vertices, 1 prior link, 1 prior universe"]
 EXPLANATION = "builders vs reference on symbolic inputs over a symbolic prior graph; rejection leaves the heap untouched"
 
@@ -45,6 +45,8 @@ def configs(tier):
     for lt in (("DE",) if tier == "quick" else ("DE", "UE")):
         for n in (0, 1, 2) if tier == "quick" else (0, 1, 2, 3):
             out.append({"builder": "matrix", "n": n, "lt": lt, "prior": n < 3})
+    # cells that are not numbers: "truthy cell" means truthy (None, "" and () are falsy although they are not == 0)
+    out.append({"builder": "matrix", "n": 2, "lt": "DE", "prior": False, "cells": "mixed"})
     out.append({"builder": "matrix_reject", "lt": "DE", "prior": True})
     return out
 
@@ -160,9 +162,13 @@ def scenario(B, p):
         return
     if p["builder"] == "matrix":
         n = p["n"]
-        rows = [B.intlist(f"row{i}", n, cap=n) for i in range(n)]
-        for r in rows:
-            B.assume(B.eq(B.len_(r), n), "square")
+        if p.get("cells") == "mixed":
+            menu = [0, 1, None, "", "x"]
+            rows = [B.mklist([menu[B.choice(f"cell{i}_{j}", len(menu))] for j in range(n)]) for i in range(n)]
+        else:
+            rows = [B.intlist(f"row{i}", n, cap=n) for i in range(n)]
+            for r in rows:
+                B.assume(B.eq(B.len_(r), n), "square")
         env["matrix"] = B.mklist(rows)
         env["vertices"] = B.mklist([B.ref(f"side{i}", verts) for i in range(n)])
     else:
